@@ -99,6 +99,10 @@ def leaf_universe(rng, tier):
             lo, hi = (-1.5, 2.25) if isf else ((0, 5) if dt == "uint8" else (-3, 5))
             out.append(S.BoundedArray(sh, dt, lo, hi, name=f"b_{dt}"))
             out.append(S.BoundedArray(sh, dt, lo, lo, name="degenerate"))
+            if dt == "int32":   # large magnitudes: a difference of 1 is far below any relative tolerance
+                out.append(S.BoundedArray(sh, dt, -200000, 300000, name="large"))
+            if dt == "float32":
+                out.append(S.BoundedArray(sh, dt, -1000.5, 4096.25, name="large"))
             if isf:
                 out.append(S.BoundedArray(sh, dt, 0.0, np.inf, name="nonneg"))
             n = int(np.prod(sh))
@@ -228,6 +232,27 @@ def events_for_spec(spec, label, rng, evs, with_values=True):
             # structure errors for nested specs
             vals.append(("not_a_tree", [1, 2]))
             kids = list(spec._specs.items())
+            names = [k for k, _ in kids]
+            gd = gen._asdict() if hasattr(gen, "_asdict") else {k: getattr(gen, k) for k in names}
+            import jax.numpy as jnp_
+
+            Sup = collections.namedtuple("Sup", names + ["extra_field"])
+            vals.append(("extra_field", Sup(**gd, extra_field=jnp_.zeros((), "int32"))))
+            if len(names) >= 2:
+                Sub = collections.namedtuple("Sub", names[:-1])
+                vals.append(("missing_field", Sub(**{k: gd[k] for k in names[:-1]})))
+                Ren = collections.namedtuple("Ren", names[:-1] + ["renamed_" + names[-1]])
+                vals.append(("renamed_field", Ren(**{k: gd[k] for k in names[:-1]}, **{"renamed_" + names[-1]: gd[names[-1]]})))
+            # the same one level down: an inner nested value with an extra field
+            for k0, s0 in kids:
+                if not isinstance(s0, S.Array):
+                    inner = gd[k0]
+                    inames = list(s0._specs)
+                    idict = inner._asdict() if hasattr(inner, "_asdict") else {k: getattr(inner, k) for k in inames}
+                    ISup = collections.namedtuple("ISup", inames + ["extra_inner"])
+                    vals.append(("inner_extra_field", gen._replace(**{k0: ISup(**idict, extra_inner=jnp_.zeros((), "int32"))})
+                                 if hasattr(gen, "_replace") else gen))
+                    break
             if kids and isinstance(kids[0][1], S.Array):
                 k0, s0 = kids[0]
                 bad = gen._replace(**{k0: jnp.zeros(tuple(s0.shape) + (2,), s0.dtype)})
@@ -331,6 +356,24 @@ def replacements(spec):
                 if ok:
                     full = np.broadcast_to(newmax, spec.shape).reshape(-1)
                     out.append(([{"attr": "maximum", "value": [ordv(v, str(dt)) for v in full]}], {"maximum": newmax}))
+                # the smallest possible change of a bound: one ulp (floats) / one unit (ints)
+                mn = np.asarray(spec.minimum)
+                if np.issubdtype(dt, np.floating):
+                    m2 = np.nextafter(mx, dt.type(np.inf)).astype(dt)
+                    n2 = np.nextafter(mn, dt.type(-np.inf)).astype(dt)
+                    tiny = np.finfo(dt).tiny
+                    ok2 = np.isfinite(m2).all() and (np.abs(m2) >= tiny).all() and np.isfinite(mx).all()
+                    ok3 = np.isfinite(n2).all() and (np.abs(n2) >= tiny).all() and np.isfinite(mn).all()
+                else:
+                    m2, n2 = (mx + 1).astype(dt), (mn - 1).astype(dt)
+                    ok2 = False  # already covered above
+                    ok3 = mn.size > 0 and int(mn.min()) - 1 >= np.iinfo(dt).min
+                if ok2:
+                    full = np.broadcast_to(m2, spec.shape).reshape(-1)
+                    out.append(([{"attr": "maximum", "value": [ordv(v, str(dt)) for v in full]}], {"maximum": m2}))
+                if ok3:
+                    full = np.broadcast_to(n2, spec.shape).reshape(-1)
+                    out.append(([{"attr": "minimum", "value": [ordv(v, str(dt)) for v in full]}], {"minimum": n2}))
         elif type(spec) is S.Array:
             out.append(([{"attr": "shape", "value": [int(x) for x in tuple(spec.shape) + (2,)]}], {"shape": tuple(spec.shape) + (2,)}))
             nd = "int32" if str(np.dtype(spec.dtype)) != "int32" else "float32"
